@@ -300,8 +300,9 @@ def playback(ws, scratch, crate, h, log=None):
             s0 = woven.rfind("/// Test generated for harness", 0, i)
             s1 = woven.rfind("#[test]", 0, i)
             st = s0 if (s0 >= 0 and s1 - s0 < 600) else s1
-            toks_end = woven.find("\n}", i)
-            txt = woven[st:toks_end + 2]
+            run_at = woven.find("kani::concrete_playback_run(", i)
+            toks_end = woven.find("}", run_at if run_at >= 0 else i)
+            txt = woven[st:toks_end + 1]
             if "Check for `cover`" in txt:
                 continue  # satisfied cover points also get playback tests; they are not counterexamples
             tests.append(txt)
